@@ -111,8 +111,40 @@ def _tree_shaped(body):
                 o_ok = _tree_shaped((s.orelse or []) + ([] if (s.orelse and _ends(s.orelse)) else rest))
                 return b_ok and o_ok
         elif any(isinstance(x, ast.Return) for x in _all_stmts([s])):
-            return False      # return inside a loop / try / with
+            # a loop whose returns sit directly in its body (under ifs only) and that has no break of its
+            # own: `return e` becomes `r = e; break`, what follows the loop becomes its else-branch
+            if isinstance(s, (ast.For, ast.While)) and not s.orelse and _loop_returns_ok(s.body):
+                return _tree_shaped(body[i + 1:])
+            return False      # return inside a nested loop / try / with
     return True
+
+
+def _loop_returns_ok(stmts):
+    for s in stmts:
+        if isinstance(s, ast.Break):
+            return False
+        if isinstance(s, ast.If):
+            if not _loop_returns_ok(s.body) or not _loop_returns_ok(s.orelse or []):
+                return False
+        elif not isinstance(s, ast.Return) and any(isinstance(x, (ast.Return,)) for x in _all_stmts([s])):
+            return False
+        elif isinstance(s, (ast.Try, ast.With)) and any(isinstance(x, ast.Break) for x in _all_stmts([s])):
+            return False
+    return True
+
+
+def _loop_returns(stmts, make):
+    out = []
+    for s in stmts:
+        if isinstance(s, ast.Return):
+            out.extend(make(s.value))
+            out.append(ast.copy_location(ast.Break(), s))
+            return out
+        if isinstance(s, ast.If) and any(isinstance(x, ast.Return) for x in _all_stmts([s])):
+            s = ast.copy_location(ast.If(test=s.test, body=_loop_returns(s.body, make) or [ast.Pass()],
+                                         orelse=_loop_returns(s.orelse or [], make)), s)
+        out.append(s)
+    return out
 
 
 def _ends(stmts):
@@ -133,14 +165,39 @@ def _assign_returns(body, make):
             new_if = ast.If(test=s.test, body=nb or [ast.Pass()], orelse=no)
             out.append(ast.copy_location(new_if, s))
             return out
+        if isinstance(s, (ast.For, ast.While)) and any(isinstance(x, ast.Return) for x in _all_stmts([s])):
+            loop = copy.copy(s)
+            loop.body = _loop_returns(s.body, make)
+            endless = isinstance(s, ast.While) and isinstance(s.test, ast.Constant) and bool(s.test.value)
+            loop.orelse = [] if endless else _assign_returns(body[i + 1:], make)
+            out.append(loop)
+            return out
         out.append(s)
     out.extend(make(None))
     return out
 
 
 class _Rename(ast.NodeTransformer):
-    def __init__(self, mapping, subst):
-        self.mapping, self.subst = mapping, subst
+    def __init__(self, mapping, subst, lams=None):
+        self.mapping, self.subst, self.lams = mapping, subst, lams or {}
+
+    def visit_Call(self, n):
+        # a parameter bound to a lambda of the caller and only ever called: the call is the lambda's body
+        if isinstance(n.func, ast.Name) and n.func.id in self.lams:
+            lam = self.lams[n.func.id]
+            args = [self.visit(a) for a in n.args]
+            m = dict(zip([a.arg for a in lam.args.args], args))
+
+            class B(ast.NodeTransformer):
+                def visit_Name(self, x):
+                    if x.id in m and isinstance(x.ctx, ast.Load):
+                        return ast.copy_location(copy.deepcopy(m[x.id]), x)
+                    return x
+
+                def visit_Lambda(self, x):
+                    return x
+            return ast.copy_location(B().visit(copy.deepcopy(lam.body)), n)
+        return self.generic_visit(n)
 
     def visit_Name(self, n):
         if n.id in self.subst and isinstance(n.ctx, ast.Load):
@@ -195,7 +252,11 @@ def _bind(fn, kind, call, recv):
         if isinstance(s, ast.ExceptHandler) and s.name:
             stored.add(s.name)
     mapping, subst, prelude = {}, {}, []
+    lams = {}
     for p, a in bound.items():
+        if p not in stored and isinstance(a, ast.Lambda) and _beta_ok(fn, p, a):
+            lams[p] = a
+            continue
         if p not in stored and _simple_arg(a):
             subst[p] = a
         else:
@@ -204,7 +265,34 @@ def _bind(fn, kind, call, recv):
     for v in stored:
         if v not in mapping and v not in bound:
             mapping[v] = tag + v
-    return prelude, mapping, subst
+    return prelude, mapping, subst, lams
+
+
+def _beta_ok(fn, p, lam):
+    """parameter p (bound to the caller's lambda) is only ever called, positionally, with as many arguments as
+    the lambda takes; each lambda parameter is read at most once in its body or the argument is a plain path"""
+    la = lam.args
+    if la.vararg or la.kwarg or la.kwonlyargs or la.posonlyargs or la.defaults:
+        return False
+    names = [a.arg for a in la.args]
+    if any(isinstance(x, (ast.Lambda, ast.NamedExpr, ast.ListComp, ast.SetComp, ast.DictComp, ast.GeneratorExp)) for x in ast.walk(lam.body)):
+        return False
+    uses = {nm: sum(1 for x in ast.walk(lam.body) if isinstance(x, ast.Name) and x.id == nm) for nm in names}
+    callee_ids = set()
+    for c in ast.walk(fn):
+        if isinstance(c, ast.Call) and isinstance(c.func, ast.Name) and c.func.id == p:
+            if c.keywords or len(c.args) != len(names) or any(isinstance(a, ast.Starred) for a in c.args):
+                return False
+            for nm, a in zip(names, c.args):
+                if uses[nm] > 1 and not _simple_arg(a):
+                    return False
+                if uses[nm] == 0 and any(isinstance(x, ast.Call) for x in ast.walk(a)):
+                    return False
+            callee_ids.add(id(c.func))
+    for x in ast.walk(fn):
+        if isinstance(x, ast.Name) and x.id == p and id(x) not in callee_ids:
+            return False
+    return bool(callee_ids)
 
 
 PKG = {}        # module name -> raw tree of every module of the package (set by the loader): helpers defined in a sibling module
@@ -329,8 +417,8 @@ class Inliner:
         b = _bind(fn, kind, call, recv)
         if b is None:
             return None
-        prelude, mapping, subst = b
-        body = [_Rename(mapping, subst).visit(copy.deepcopy(s)) for s in fn.body
+        prelude, mapping, subst, lams = b
+        body = [_Rename(mapping, subst, lams).visit(copy.deepcopy(s)) for s in fn.body
                 if not (isinstance(s, ast.Expr) and isinstance(s.value, ast.Constant))]
         has_ret = any(isinstance(x, ast.Return) for x in _all_stmts(body))
         if ctxkind == "return":
@@ -380,7 +468,7 @@ class Inliner:
                 b = _bind(fn, kind, n, recv)
                 if b is None or b[0]:
                     return n
-                out = _Rename(b[1], b[2]).visit(copy.deepcopy(body[0].value))
+                out = _Rename(b[1], b[2], b[3]).visit(copy.deepcopy(body[0].value))
                 ast.copy_location(out, n)
                 for x in ast.walk(out):
                     if isinstance(x, ast.expr) and not hasattr(x, "lineno"):
@@ -565,6 +653,51 @@ def has_new_helpers(tree, modname, known):
                 if isinstance(m, ast.FunctionDef) and is_private(m.name) and "%s.%s" % (st.name, m.name) not in kn:
                     return True
     return False
+
+
+def new_bare_names(known):
+    """names of functions / methods defined in the package now that no function or method had when the
+    rules were written (a new override of a known method name is not new in this sense)"""
+    if known is None:
+        return set()
+    old = set()
+    for names in known.values():
+        for nm in names:
+            old.add(nm.split(".")[-1])
+    new = set()
+    for tree in PKG.values():
+        for st in tree.body:
+            if isinstance(st, ast.FunctionDef) and is_private(st.name) and st.name not in old:
+                new.add(st.name)
+            elif isinstance(st, ast.ClassDef):
+                for m in st.body:
+                    if isinstance(m, ast.FunctionDef) and is_private(m.name) and m.name not in old:
+                        new.add(m.name)
+    return new
+
+
+def residual_calls(tree, new_names):
+    """[(first line, last line, function name, [callee names])] for the functions of the (final) tree that still
+    call a new helper: its effects are invisible to the rules, so nothing is concluded from what is missing there"""
+    out = []
+    if not new_names:
+        return out
+    for fn in ast.walk(tree):
+        if isinstance(fn, (ast.FunctionDef, ast.AsyncFunctionDef)):
+            names = []
+            for c in ast.walk(fn):
+                if isinstance(c, ast.Call):
+                    nm = c.func.id if isinstance(c.func, ast.Name) else c.func.attr if isinstance(c.func, ast.Attribute) else None
+                    if nm in new_names and nm != fn.name and nm not in names:
+                        names.append(nm)
+                # a new helper handed over as a value (callback, key function, thread target)
+                elif isinstance(c, (ast.Name, ast.Attribute)) and isinstance(getattr(c, "ctx", None), ast.Load):
+                    nm = c.id if isinstance(c, ast.Name) else c.attr
+                    if nm in new_names and nm != fn.name and nm not in names:
+                        names.append(nm)
+            if names:
+                out.append((fn.lineno, getattr(fn, "end_lineno", fn.lineno) or fn.lineno, fn.name, names))
+    return out
 
 
 def inline_module(tree, modname, known=None):
